@@ -1,6 +1,8 @@
 package core
 
 import (
+	"fmt"
+	"os"
 	"go/ast"
 	"go/constant"
 	"go/token"
@@ -987,6 +989,11 @@ func TrackVals(info *types.Info, body ast.Node, a *Automaton) *Automaton {
 	}
 	if len(objs) == 0 {
 		return a
+	}
+	if os.Getenv("VERIF_DEBUG_TRACKVALS") != "" {
+		for _, o := range objs {
+			fmt.Fprintf(os.Stderr, "TrackVals: %s at %v\n", o.Name(), ObjPos(o))
+		}
 	}
 	idx := map[types.Object]int{}
 	pow := 1
